@@ -7,6 +7,13 @@ Model: Model/Fasta.lean (scanner, parser loop, Build, the ParseConcurrent produc
 Spec:  Spec/FastaLayout.lean (every layout the property says must not matter).
 Channels: Base/Chan.lean, general theorems in Lemmas/Chan.lean.
 
+`producer_refines` (Fasta.loopOps_eq) relates TWO TRANSCRIPTIONS of the same Go switch: `loopOps` (the
+goroutine's loop as the channel operations it performs) and `parseLines` (the records, used by `parse`).  It
+makes `producer` independent of `parse`, so the stream_* theorems are about the loop; it is not evidence that
+either transcription is the Go code — a transcription error would be copied into both.  The tie of `loopOps`
+to the real goroutine is the stream correspondence (every stream case compares the received sequence and the
+close with a run of this model), the tie of `parseLines` to Parse the layout / raw correspondence.
+
 `m` is the scanner's token limit (the code passes math.MaxInt32 = `maxInt32`); the only size
 restriction anywhere is `LinesFit m text`: every line of the text is shorter than `m - 1`.
 There is no bound on the number of records, the sequence lengths, the wrap widths, the channel
